@@ -61,6 +61,7 @@ class Tracker:
         self.read_acl_touched = set()
         self.cfg_touched = set()
         self.owner = {}         # channel -> nid of the owner as announced to the clients (None = not known)
+        self.spelling = {}      # raw IDENTIFY username bytes -> NID the server assigned for that spelling
         self.viol = []
 
     def conns_of(self, nid):
@@ -70,6 +71,7 @@ class Tracker:
         case, obs = self.case, self.obs
         domain = case["cfg"]["domain"].encode()
         pending = {}            # (conn, id) -> op index sent
+        sent_ids = set()        # every (conn, id) a client put on the wire
         replies = {}            # (conn, id) -> count
         closed_at = {}
         for t, (op, o) in enumerate(zip(case["ops"], obs["ops"])):
@@ -96,10 +98,12 @@ class Tracker:
             live_before = set(self.live)
             # ---- requests sent in this op (registered first: replies arrive within the same op)
             for (kind, params, pl) in sent:
-                if "id" in params and k0 in users_before and kind not in ("PING", "PONG"):
+                if "id" in params and kind not in ("PING", "PONG"):
                     try:
                         if int(params["id"]) != 0:
-                            pending[(k0, int(params["id"]))] = t
+                            sent_ids.add((k0, int(params["id"])))      # (an unauthenticated sender may still get its id back, e.g. payload too large)
+                            if k0 in users_before:
+                                pending[(k0, int(params["id"]))] = t
                     except ValueError:
                         pass
             # ---- frames received in this op
@@ -127,15 +131,22 @@ class Tracker:
                             self.viol.append(("C09", f"conn {k} authenticated as {fget(f, 'nid')!r} but the modulator returned {bytes.fromhex(sc[0]['auth_success'])!r}", t))
                     fid = sl.frame_get(f, "id") if any(fd["pname"] == "id" for fd in sl.cg.schema()[f["kind"]][2]) else None
                     if fid is not None and n not in ("PING", "PONG"):
-                        if (k, fid) not in pending:
-                            self.viol.append(("C12", f"frame {n} with id {fid} the client never sent (or already answered) on conn {k}", t))
+                        if (k, fid) not in sent_ids:
+                            self.viol.append(("C12", f"frame {n} with id {fid} the client never sent on conn {k}", t))
                         replies[(k, fid)] = replies.get((k, fid), 0) + 1
                         if replies[(k, fid)] > 1:
                             self.viol.append(("C12", f"second frame with id {fid} on conn {k}", t))
+                    if n == "IDENTIFY_ACK" and k == k0:
+                        for (kind, params, pl) in sent:
+                            if kind == "IDENTIFY" and "username" in params:
+                                self.spelling[params["username"]] = fget(f, "nid")      # what the server makes of this spelling
                     if n == "ERROR" and fget(f, "reason") == b"USERNAME_IN_USE" and k == k0:
                         for (kind, params, pl) in sent:
-                            if kind == "IDENTIFY" and "username" in params and b"\\" not in params["username"]:
-                                want = params["username"].strip() + b"@" + domain
+                            if kind == "IDENTIFY" and "username" in params:
+                                raw = params["username"]
+                                want = self.spelling.get(raw) or (raw + b"@" + domain if raw.isalnum() else None)
+                                if want is None:
+                                    continue     # a spelling the server has not normalised for us yet (Unicode padding, quoting)
                                 holders = [k2 for k2 in live_before if k2 != k and users_before.get(k2) == want]
                                 if not holders:
                                     self.viol.append(("C07", f"IDENTIFY {want!r} refused with USERNAME_IN_USE although no live connection holds that name", t))
@@ -271,8 +282,11 @@ class Tracker:
                     continue
                 myf = [f for f in recv.get(k0, {"frames": []})["frames"] if "undecodable" not in f and sl.frame_get(f, "id") == rid]
                 mine_all = [f for f in recv.get(k0, {"frames": []})["frames"] if "undecodable" not in f]
+                # JOIN: also an id-less closing ERROR (a JOIN whose announcement fails is rolled back before anybody is told);
+                # LEAVE: only an ERROR bearing the request's id (a LEAVE whose hand-over announcement fails has been applied
+                # and announced already: reply-then-close, see C12_reply_then_close_witness / K18a)
                 refused = any(fname(f) == "ERROR" for f in myf) or \
-                    (recv.get(k0, {}).get("closed") and any(fname(f) == "ERROR" and sl.frame_get(f, "id") is None for f in mine_all) and len(sent) == 1)
+                    (kind == "JOIN" and recv.get(k0, {}).get("closed") and any(fname(f) == "ERROR" and sl.frame_get(f, "id") is None for f in mine_all) and len(sent) == 1)
                 if refused and not any(fname(f) in ("JOIN_ACK", "LEAVE_ACK") for f in myf):
                     who = params.get("on_behalf", users_before.get(k0))
                     evk = b"MEMBER_JOINED" if kind == "JOIN" else b"MEMBER_LEFT"
